@@ -217,11 +217,19 @@ func genPod(r *u.Rng, malformed bool) podSpec {
 		nc = 0
 	}
 	normalised := !r.Chance(1, 6)
-	for i := 0; i < nc; i++ {
-		p.Containers = append(p.Containers, genCont(r, fmt.Sprintf("c%d", i), whole && (i == 0 || r.Bool()), normalised))
+	// where the whole-GPU request sits: on the first container (usual), only on an init container, or anywhere
+	placement := r.Intn(4)
+	ninit := r.Intn(3)
+	if whole && placement == 1 && ninit == 0 {
+		ninit = 1
 	}
-	for i, n := 0, r.Intn(3); i < n; i++ {
-		p.Inits = append(p.Inits, genCont(r, fmt.Sprintf("i%d", i), whole && r.Chance(1, 3), normalised))
+	for i := 0; i < nc; i++ {
+		onThis := whole && ((placement != 1 && i == 0) || (placement >= 2 && r.Bool()))
+		p.Containers = append(p.Containers, genCont(r, fmt.Sprintf("c%d", i), onThis, normalised))
+	}
+	for i := 0; i < ninit; i++ {
+		onThis := whole && ((placement == 1 && i == 0) || (placement != 0 && r.Chance(1, 3)))
+		p.Inits = append(p.Inits, genCont(r, fmt.Sprintf("i%d", i), onThis, normalised))
 	}
 	if r.Chance(1, 4) {
 		p.Ann["gpu-fraction-container-name"] = u.Pick(r, []string{"c0", "c1", "c2", "i0", "i1", "nope", ""})
@@ -425,6 +433,16 @@ func corpus() []podSpec {
 		out = append(out, mk(map[string]string{"gpu-memory": s}, true))
 		out = append(out, mk(map[string]string{"gpu-fraction": "0.5", "gpu-fraction-num-devices": s}, true))
 		out = append(out, mk(map[string]string{"gpu-memory": "1024", "gpu-fraction-num-devices": s}, true))
+	}
+	// a whole-GPU limit that sits only on an init container / only on a sidecar
+	one := int64(1)
+	for _, ann := range []map[string]string{{"gpu-fraction": "0.5"}, {"gpu-memory": "1024"}, {"gpu-fraction": "0.5", "gpu-fraction-num-devices": "2"}} {
+		p := mk(ann, true)
+		p.Inits = []cont{{Name: "i0", Req: &one, Lim: &one}}
+		out = append(out, p)
+		q := mk(ann, true)
+		q.Containers = append(q.Containers, cont{Name: "c1", Req: &one, Lim: &one})
+		out = append(out, q)
 	}
 	out = append(out, mk(map[string]string{"gpu-fraction": "0.5"}, false))
 	out = append(out, mk(map[string]string{"gpu-memory": "100"}, false))
